@@ -40,6 +40,11 @@ pub struct Prio2 {
 impl Prio2 {
     /// Returns an instance of the VDAF for the given input length.
     pub fn new(input_len: usize) -> Result<Self, VdafError> {
+        if input_len > (u32::MAX as usize) / 4 {
+            return Err(VdafError::Uncategorized(
+                "input size exceeds memory capacity".into(),
+            ));
+        }
         let n = (input_len + 1).next_power_of_two();
         if let Ok(size) = u32::try_from(2 * n) {
             if size > FieldPrio2::generator_order() {
